@@ -124,9 +124,13 @@ Definition want_cap (c : case) : option N :=
 Definition beyond_ok (c : case) (r : result) : bool :=
   match r with
   | Ok (IV x :: _) =>
-      canonb x &&
-      match want_len c with Some n => xlen x =? n | None => true end &&
-      match want_cap c with Some n => n <=? x_capacity x | None => true end
+      (* len <= capacity is part of canonb; asked first, behind an `if`, so that an evaluator which computes both
+         arguments of && (vm_compute) never builds 2^len for a claimed length no storage can back *)
+      if xlen x <=? x_capacity x then
+        canonb x &&
+        match want_len c with Some n => xlen x =? n | None => true end &&
+        match want_cap c with Some n => n <=? x_capacity x | None => true end
+      else false
   | _ => true
   end.
 
